@@ -174,7 +174,7 @@ Proof.
     + dif Hst; destruct Hst as [<-|[]]; splitJ; auto.
       all: try (useJ1 J1).
       all: intros Hq; exact (K (Hquiet_rd _ _ _ eq_refl Hq)).
-    + destruct Hst as [<-|[]]; splitJ; auto.
+    + destruct k as [|k']; [destruct Hst|]. destruct Hst as [<-|[]]; splitJ; auto.
       all: try (intros _; right; right; right; left; reflexivity).
       all: try (intros Hq; exact (K (Hquiet_rd _ _ _ eq_refl Hq))).
   - destruct (push_first c (k =? 0)) as [c'|] eqn:Hp; [|destruct Hst]. destruct Hst as [<-|[]].
